@@ -411,3 +411,94 @@ class UncontendedOracle:
         if took != need:
             raise Violation("C06.uncontended.ticks", {"algo": R.cfg["algo"], "multi": R.cfg["multi"], "took": took, "ticks_needed": need,
                                                       "cpus": [c for _, _, c in self.asg]}, R.tick)
+
+
+class ModelOracle:
+    """The exact reference model in lock-step with the real executor *inside run_simulator*: every command the real
+    scheduler issues is given to the model as well, and pools, containers, memory, boundary flags, operator states and
+    results are compared after every tick (same rules as the EX driver).  Stops judging (not the run) when a decision
+    falls into the float band."""
+
+    def __init__(self, cfg):
+        from . import model as M
+        self.M = M
+        self.mex = M.MExec(cfg["pools"], cfg["cpus"], M.frac(float(cfg["ram"])) if not isinstance(cfg["ram"], int) else cfg["ram"],
+                           cfg["tps"], cfg["over"], cfg["multi"], False)
+        self.mex.ar.admission_follows_impl = True
+        self.mops = {}       # id(real op) -> MOp
+        self.lab = {}        # label -> MCont
+        self.n = 0
+        self.off = False
+        self.built = []
+        from .exdrv import Obs
+        self.obs = Obs()
+
+    def _ensure_ops(self, R):
+        from eudoxia.workload.pipeline import Segment
+        M = self.M
+        names = {f: n for n, f in Segment.SCALING_FUNCS.items()}
+        while len(self.built) < len(R.pipes):
+            p = R.pipes[len(self.built)]
+            b = type("B", (), {})()
+            b.rops = list(p.values.node_lookup.values())
+            b.mops = []
+            for oi, o in enumerate(b.rops):
+                segs = [(M.frac(float(g.baseline_cpu_seconds)), names.get(g.scaling_func), None if g.memory_gb is None else M.frac(float(g.memory_gb)),
+                         M.frac(float(g.storage_read_gb))) for g in o.get_segments()]
+                m = M.MOp((len(self.built), oi), segs, [self.mops[id(q)] for q in o.parents])
+                self.mops[id(o)] = m
+                b.mops.append(m)
+            self.built.append(b)
+
+    def on_tick(self, R, ex, sus, asg, res):
+        if self.off:
+            return
+        from . import exdrv
+        from .common import Discard
+        M = self.M
+        t = R.tick
+        self._ensure_ops(R)
+        try:
+            byid = {rc.container_id: l for l, rc in self.obs.real.items()}
+            msus = []
+            for s in sus:
+                l = byid.get(s.container_id)
+                msus.append((s.pool_id, self.lab.get(l)))
+            masg, rasg = [], []
+            for a in asg:
+                self.n += 1
+                l = "s%d" % self.n
+                mops = [self.mops[id(o)] for o in a.ops]
+                for m in mops:
+                    if m.state not in (M.P, M.FL):
+                        raise Violation("C02.construct.accepted", {"op": m.key, "state": m.state}, t)
+                    m.state = M.A
+                mc = M.MCont(l, mops, M.frac(a.cpu) if not isinstance(a.cpu, float) else M.frac(a.cpu), M.frac(float(a.ram)), a.pool_id)
+                self.lab[l] = mc
+                masg.append(mc)
+                rasg.append((l, a))
+            exdrv._map_new_containers(ex, res, rasg, self.obs, t)
+            self.obs.failed = {}
+            byid = {rc.container_id: l for l, rc in self.obs.real.items()}
+            for r_ in res:
+                if r_.failed() and byid.get(r_.container_id) is not None:
+                    self.obs.failed.setdefault(r_.pool_id, []).append(self.lab[byid[r_.container_id]])
+            try:
+                mres = self.mex.step(msus, masg, self.obs)
+            except M.Reject as rj:
+                raise Violation(exdrv.REJECT_RULE[rj.kind], {"kind": rj.kind, "pool": rj.pool, "info": str(rj.info),
+                                                            "where": "decision of the shipped scheduler accepted by the executor"}, t)
+            got = [(byid.get(r_.container_id, r_.container_id), r_.failed()) for r_ in res]
+            want = [(c.label, bool(c.error)) for c in mres]
+            if got != want:
+                raise Violation("EX.results", {"got": got, "want": want}, t)
+            exdrv._compare_pools(ex, self.mex, self.obs, t)
+            exdrv._compare_states(self.built, t, "EX.states")
+            R.probe("model_lockstep_ticks")
+        except Discard:
+            self.off = True
+            R.probe("model_lockstep_stopped_in_band")
+
+    def on_end(self, R, stats):
+        for k, v in self.mex.probes().items():
+            R.probe("m_" + k, v)
